@@ -160,6 +160,9 @@ func placeReplay(r limitsRec, v gmsl.IRoomVersion, f evFields) hx.Result {
 		if res := judge(berr, "EventBuilder.Build"); res != nil {
 			return *res
 		}
+		if res := checkHanded(r, nt, retFor(r, classify(berr)), built, bf, "EventBuilder.Build"); res != nil {
+			return *res
+		}
 		if unsVal != nil {
 			// the unsigned value given through EventBuilder.SetUnsigned
 			g := bf
@@ -191,6 +194,12 @@ func placeReplay(r limitsRec, v gmsl.IRoomVersion, f evFields) hx.Result {
 			ev, err := v.NewEventFromUntrustedJSON(in.json)
 			via := "NewEventFromUntrustedJSON of " + in.via
 			if res := judge(err, via); res != nil {
+				return *res
+			}
+			if res := checkHanded(r, nt, retFor(r, classify(err)), ev, f, via); res != nil {
+				return *res
+			}
+			if res := checkKept(r, nt, retFor(r, classify(err)), in.json, f, in.via); res != nil {
 				return *res
 			}
 			if ev == nil || classify(err) == "refused" {
